@@ -246,7 +246,7 @@ Definition k_eval (km : kmaps) (a : kargs) (hsport hdport : N) (c : kctx) (index
     inl (if negb (N.land value mask =? 0) then good else c)
   else if t =? K_MatchType_DomainSet then k_match_domain km a c index
   else if t =? K_MatchType_ProcessName then
-    inl (if negb (byte_at flag 7 mod 256 =? 0) && negb (byte_at flag 2 mod 256 =? 0) &&   (* is_wan && *(const __u8 *)pname *)
+    inl (if negb (byte_at flag 7 mod 256 =? 0) && negb (byte_at flag 2 mod 256 =? 0) &&   (* is_wan, and the first byte of the name is non-zero *)
             equal16 (le64 e 0) (le64 e 8)
                     (byte_at flag 2 + 4294967296 * byte_at flag 3) (byte_at flag 4 + 4294967296 * byte_at flag 5)
          then good else c)
